@@ -212,6 +212,22 @@ Theorem C17_download_any_clock : forall interval t0 evs,
 Proof. exact download_any_clock. Qed.
 Print Assumptions C17_download_any_clock.
 
+(* ------------------------------------------------------------------ the code before the repairs *)
+
+Theorem C17_pinned_drops_ordered_form :
+  exists cf ord b,
+    form_plan_of_pinned [] cf ord = FBody b /\
+    values_of (bs "z") (pair_up ord) = [bs "1"] /\
+    values_of (bs "z") (parse_form b) = [] /\
+    exists b', form_plan_of [] cf ord = FBody b' /\ values_of (bs "z") (parse_form b') = [bs "1"].
+Proof. exact pinned_drops_ordered_form. Qed.
+
+Theorem C17_pinned_drops_client_form_in_multipart :
+  exists q, q_multipart q = true /\ lookup (bs "b") (q_cform q) = [bs "x"] /\
+    values_of (bs "b") (multipart_fields_pinned q) = [] /\
+    values_of (bs "b") (multipart_fields q) = [bs "x"].
+Proof. exact pinned_drops_client_form_in_multipart. Qed.
+
 (* ------------------------------------------------------------------ non-vacuity *)
 
 Example C17_nonvacuous :
@@ -231,7 +247,8 @@ Example C17_multipart_nonvacuous :
   let fields := [(bs "k ""q""", bs "v1"); (bs "", bs "--XyZ")] in
   let files := [ {| f_param := bs "file"; f_name := bs "a""b\c.txt"; f_ctype := []; f_extra := [];
                     f_content := bs "hello"; f_first := 5 |};
-                 {| f_param := bs "file"; f_name := bs "é.bin"; f_ctype := bs "text/plain"; f_extra := [];
+                 {| f_param := bs "file"; f_name := bs "é.bin"; f_ctype := bs "text/plain";
+                    f_extra := [(bs "x-id", bs "7""")];
                     f_content := []; f_first := 0 |} ] in
   boundary_chars b = true /\ forallb (field_ok b) fields = true /\
   forallb (file_ok sniff b) files = true /\
